@@ -69,7 +69,8 @@ def _line(draw):
         f = [t + desc, "/" + draw(seg), draw(st.sampled_from(["other.example", "gopher.floodgap.com"]))]
     elif k == "l4":
         f = [t + desc, draw(st.sampled_from(["/", "/x/y", "rel/path", "0/x"])), draw(st.sampled_from(["other.example", "h2.example.org"])),
-             str(draw(st.sampled_from([70, 7070, 105])))]
+             # (0 is what full-form info and error lines pasted from other menus carry; 65535 is the largest port)
+             str(draw(st.sampled_from([70, 7070, 105, 0, 0, 65535, 1])))]
     elif k == "l4emptyhost":
         f = [t + desc, "/" + draw(seg), "", str(draw(st.sampled_from([70, 7071])))]
     else:  # l4emptysel: empty selector but local host omitted -> defaults to description (relative)
